@@ -45,7 +45,7 @@ def handle (j : Json) : Except String Json := do
     let d ← getNat j "root"
     let tb ← parseTables j
     let v := mkVal tb
-    -- the declaration of a selected element: found by the schema path, else created for its xsi:type (schemas.py:1363-1366)
+    -- the declaration of a selected element: found by the schema path, else created for its xsi:type (schemas.py:1364-1367)
     let look : Tree → Option Nat := fun c => lazyPick (lookup tb.static) (lookup tb.created) none c
     let part := XsVerif.Lazy.chunkErrs v (fun _ c => look c) k [] (some d) t
     let deep := (eagerT v [] d t).filter (fun e => !decide (e.1.length < k))
